@@ -352,10 +352,10 @@ Lemma add_vote_J peer v s : Inv6 s -> Inv6 (add_vote valid vals proposer mkblock
 Proof.
   intros J. unfold add_vote.
   destruct (_ && vtype_eqb _ _).
-  { destruct (negb _); [exact J|]. destruct (last_commit s) as [[lr vs]|]; [|exact J].
+  { destruct (negb _); [exact J|]. destruct (last_commit s) as [[[lh lr] vs]|]; [|exact J].
     destruct (_ || _); [exact J|]. destruct (vs_add _ _ _ _) as [vs' added].
     destruct (negb added); [exact J|].
-    assert (J1 : Inv6 (set_last_commit (Some (lr, vs')) s)) by (eapply Inv6_eq; [|exact J]; repeat split).
+    assert (J1 : Inv6 (set_last_commit (Some (lh, lr, vs')) s)) by (eapply Inv6_eq; [|exact J]; repeat split).
     destruct (_ && _); [|exact J1]. now apply enter_new_round_J. }
   destruct (negb (v_height v =? height s)); [exact J|].
   pose proof (hvs_add_v peer v s) as V1.
